@@ -161,6 +161,34 @@ var c15Ranges = core.Mon(c15, "ranges-and-reparse", func(w *core.W, c *ParseCase
 		w.Violation("ranges-and-reparse", "C15/range", c, "ranges within the text, nested, in source order", bad, "input "+c.Quoted())
 		return
 	}
+	// every identifier and member name covers exactly its own text (after leading trivia)
+	for _, e := range exprs {
+		var ids []*formula.Identifier
+		switch n := e.(type) {
+		case *formula.Identifier:
+			ids = append(ids, n)
+		case *formula.SelectorExpression:
+			if n.Name != nil {
+				ids = append(ids, n.Name)
+			}
+		}
+		for _, id := range ids {
+			p := id.Pos()
+			for p < id.End() {
+				r, sz := utf8.DecodeRune(c.Src[p:])
+				if !(ref.IsSpace(r) || ref.IsLineBreak(r) || ref.IsSpaceOpen(r)) {
+					break
+				}
+				p += sz
+			}
+			w.Count("identifier_texts_checked")
+			if string(c.Src[p:id.End()]) != id.Value {
+				w.Violation("ranges-and-reparse", "C15/identifier-range", c, id.Value, fmt.Sprintf("[%d,%d) = %q", id.Pos(), id.End(), clipS(string(c.Src[id.Pos():id.End()]), 60)),
+					"the range of a name does not cover its text in "+c.Quoted())
+				return
+			}
+		}
+	}
 	w.CountN("nodes_checked", int64(nodes))
 	if nodes >= 2 {
 		w.Nontrivial(string(c.Src))
@@ -307,7 +335,7 @@ func runC15(w *core.W) {
 	r := w.RNG("prog")
 	for i, n := 0, w.Pick(12000, 200000); i < n; i++ {
 		f := ref.Flatten(ref.Parenthesize(cfg.Node(r, 2+r.Intn(6))))
-		run("prog", []byte(ref.JoinLexemes(f.Lex, gen.Layout(r, f, r.Intn(3)))))
+		run("prog", []byte(ref.JoinLexemes(f.Lex, gen.Layout(r, f, r.Intn(4)))))
 	}
 	for i, s := range gen.Corpus {
 		if w.Mine(i) {
